@@ -452,6 +452,25 @@ func (r *fatRun) do(op fatOp) map[string]any {
 			if err == nil {
 				r.sizeU[op.Q] = r.sizeU[op.P]
 				delete(r.sizeU, op.P)
+				// a renamed DIRECTORY takes its entries along, with the spelling they carry: an entry that was
+				// renamed onto its 8.3 alias earlier keeps that spelling under the new directory name
+				orig := fatNameSets[r.cfg.Names]
+				for k, src := range r.names {
+					if !strings.HasPrefix(k, op.P+"/") || src == orig[k] {
+						continue
+					}
+					dk := op.Q + k[len(op.P):]
+					if _, ok := r.names[dk]; !ok {
+						continue
+					}
+					moved := r.names[op.Q] + src[strings.LastIndex(src, "/"):]
+					delete(r.rev, r.names[dk])
+					r.names[dk] = moved
+					r.rev[moved] = dk
+					delete(r.rev, src)
+					r.names[k] = orig[k]
+					r.rev[orig[k]] = k
+				}
 			}
 		case "Remove":
 			nm := r.real(op.P, variant)
@@ -527,6 +546,16 @@ func (r *fatRun) do(op fatOp) map[string]any {
 			if m, ok := n.(map[string]any); ok && m["kind"] == "file" {
 				if d, ok := m["data"].([]int); ok && (len(d) == 0 || d[0] != -2) {
 					r.sizeU[p] = len(d)
+				}
+			}
+			// the alias spelling a path took on in a rename lasts as long as that file: once the path is
+			// empty again it is spelled as in the name set (otherwise two paths of the universe could come
+			// to name the same entry - one by its long name, the other by an alias string that is free again)
+			if m, ok := n.(map[string]any); ok && m["kind"] == "none" {
+				if orig := fatNameSets[r.cfg.Names][p]; orig != "" && r.names[p] != orig {
+					delete(r.rev, r.names[p])
+					r.names[p] = orig
+					r.rev[orig] = p
 				}
 			}
 		}
